@@ -13,7 +13,7 @@ def main():
             if not set(props)&set(o.props): continue
             if only and o.name not in only: continue
             for t in o.types:
-                for v in L.variants_of(o,t):
+                for v in L.variants_of(o,t,C.BY_NAME[c],'quick'):
                     l.append((o.name,t.name,v))
         obls[c]=l
     t0=time.time()
